@@ -6,21 +6,22 @@
    of involutions on n chambers with commuting non-adjacent operations that are connected. *)
 EXTENDS SetClasses, Json, IOUtils
 Rec == ndJsonDeserialize(IOEnv.TRACE)
-VARIABLES l, dim, max, seen, count
-vars == <<l, dim, max, seen, count>>
-Init == l = 1 /\ dim = 0 /\ max = 0 /\ seen = {} /\ count = 0
+VARIABLES l, dim, max, seen, count, full
+vars == <<l, dim, max, seen, count, full>>
+Init == l = 1 /\ dim = 0 /\ max = 0 /\ seen = {} /\ count = 0 /\ full = TRUE
 \* the universe: SetClasses!ClassesReduced (equal to the classes of ALL tuples of involutions: MC_SetClasses)
 Classes(n, dm) == ClassesReduced(n, dm)
-Header(e) == dim' = e.dim /\ max' = e.max /\ seen' = {} /\ count' = 0
+\* full = FALSE: a history beyond the bound of the universe; only the completeness half (End) is dropped
+Header(e) == dim' = e.dim /\ max' = e.max /\ seen' = {} /\ count' = 0 /\ full' = e.full
 EmitOK(e) == LET S == e.set IN
    /\ S.dim = dim /\ S.n <= max
    /\ IsDSet(S) /\ Complete(S) /\ Connected(S) /\ Commuting(S)
    /\ e.count = count + 1                                  \* numbered consecutively from 1
    /\ CanonSet(S) \notin seen                              \* not isomorphic to an earlier one
 Emit(e) == /\ EmitOK(e) = TRUE
-           /\ seen' = seen \cup {CanonSet(e.set)} /\ count' = count + 1 /\ UNCHANGED <<dim, max>>
-End(e) == /\ (\A n \in 1..max : {c \in seen : c.n = n} = Classes(n, dim)) = TRUE      \* every class is represented
-          /\ UNCHANGED <<dim, max, seen, count>>
+           /\ seen' = seen \cup {CanonSet(e.set)} /\ count' = count + 1 /\ UNCHANGED <<dim, max, full>>
+End(e) == /\ (full => \A n \in 1..max : {c \in seen : c.n = n} = Classes(n, dim)) = TRUE      \* every class is represented
+          /\ UNCHANGED <<dim, max, seen, count, full>>
 Next == /\ l <= Len(Rec)
         /\ ("panic" \notin DOMAIN Rec[l]) = TRUE
         /\ CASE Rec[l].ev = "dset_header" -> Header(Rec[l])
